@@ -15,8 +15,14 @@ fn c21_native_tal_name_with_quote() {
         MaxLenPrefix::new(Prefix::from_str("192.0.2.0/24").unwrap(), None).unwrap(),
         Asn::from_u32(64496)
     );
+    // one item of every payload type carries the name: origins, router keys and ASPAs have their own writers
+    let key = rpki::rtr::payload::RouterKey::new(
+        rpki::crypto::keys::KeyIdentifier::from([7u8; 20]), Asn::from_u32(64497),
+        rpki::rtr::pdu::RouterKeyInfo::new(bytes::Bytes::from(vec![1u8; 8])).unwrap());
+    let aspa = rpki::rtr::payload::Aspa::new(
+        Asn::from_u32(64498), rpki::rtr::pdu::ProviderAsns::try_from_iter([Asn::from_u32(64499)]).unwrap());
     let snapshot = Arc::new(PayloadSnapshot::new(
-        [(origin, info)].into_iter(), std::iter::empty(), std::iter::empty(), None
+        [(origin, info.clone())].into_iter(), [(key, info.clone())].into_iter(), [(aspa, info)].into_iter(), None
     ));
     let metrics = Arc::new(crate::metrics::Metrics::new());
     let mut bad = Vec::new();
